@@ -62,7 +62,11 @@ def frameOfJson (j : Json) : Except String Frame := do
   | "barrier" => pure .ws        -- harness-side synchronisation point: no bytes
   | "garbage" => pure .garbage
   | "truncated" => pure .truncated
-  | "value" => pure (.value (ofLean (← j.getObjVal? "json")))
+  | "value" =>
+    -- bytes around the value on its line (absent = none): the model's lexer decides whether the line is a frame
+    let lead := ofString ((getStr j "lead").toOption.getD "")
+    let trail := ofString ((getStr j "trail").toOption.getD "")
+    pure (lexLine ⟨lead, ofLean (← j.getObjVal? "json"), trail⟩)
   | "spread" => pure (.spread (ofLean (← j.getObjVal? "json")))
   | "packed" => pure (.packed ((arrOf j "vals").toList.map ofLean))
   | k => throw s!"frame kind {k}"
